@@ -345,3 +345,80 @@ def clone_contracts():
                        params=dict(self=fd_factory(sig)), ensures=ens,
                        serves=('C05', 'C12'), native=False))
     return cs
+
+
+# ================= get_function_definition: kind flags, name ================
+
+class _plain_fd:
+    """A parameterless FunctionDefinition with symbolic kind flags / name."""
+    is_factory = True
+
+    def __init__(self, named):
+        self.named = named
+
+    def __call__(self, name, path):
+        from vlib.pyvc.verify import make_param
+        world = obj.world
+        mod = world.module('yaql.language.specs')
+        from vlib.pyvc.world import ObjVal
+        fd = ObjVal(world.class_ref(mod, mod.top['FunctionDefinition'][-1]))
+        nm = make_param('FDNAME', TStr, path)
+        isf = make_param('ISF', TBool, path)
+        ism = make_param('ISM', TBool, path)
+        path.ghost.update(FDNAME=nm, ISF=isf, ISM=ism)
+        fd.fields.update(
+            parameters={}, payload=TVal.fresh('payload'),
+            name=nm if self.named else None, is_function=isf, is_method=ism,
+            no_kwargs=False, doc='', meta={})
+        return fd
+
+
+def setup_definition(world):
+    setup(world)
+    from vlib.pyvc.interp import Model
+    import types
+    # the decorator-time definition attached to the payload (ghost FD)
+    world.opaque_globals[('yaql.language.specs', '_get_function_definition')] \
+        = Model('_get_function_definition',
+                lambda it, node, func: it.ghost_vars['old_FD'], True)
+    # shape: a payload without parameters
+    world.lib[('inspect', 'getfullargspec')] = Model(
+        'inspect.getfullargspec', lambda f: types.SimpleNamespace(
+            args=[], kwonlyargs=[], varargs=None, varkw=None))
+
+
+def definition_contracts():
+    """Registration-time kind flags (C12: method-only functions are never
+    callable as functions and vice versa): an explicit function= / method=
+    argument - True OR False - overrides what the payload's decorators
+    said; None keeps it.  The original definition is never written."""
+    cs = []
+    for fval in (None, True, False):
+        for mval in (None, True, False):
+            cs.append(Contract(
+                M + 'get_function_definition',
+                name='specs.get_function_definition/function=%s,method=%s'
+                % (fval, mval),
+                params=dict(func=TVal, name='explicit', function=fval,
+                            method=mval, convention=None),
+                env=dict(FD=_plain_fd(True)),
+                ensures=[
+                    'result is not FD',
+                    'result.is_function == (%s)' % (
+                        'FD.is_function' if fval is None else fval),
+                    'result.is_method == (%s)' % (
+                        'FD.is_method' if mval is None else mval),
+                    'FD.is_function == ISF and FD.is_method == ISM',
+                    'result.name == "explicit" and FD.name == FDNAME',
+                    'val(result.payload) == val(FD.payload)'],
+                serves=('C12', 'C05'), native=False))
+    # the name: explicit > decorator-given > payload's __name__
+    cs.append(Contract(
+        M + 'get_function_definition',
+        name='specs.get_function_definition/name=decorator',
+        params=dict(func=TVal, name=None, function=None, method=None,
+                    convention=None),
+        env=dict(FD=_plain_fd(True)),
+        ensures=['result.name == FDNAME', 'FD.name == FDNAME'],
+        serves=('C12', 'C05'), native=False))
+    return cs
